@@ -233,6 +233,11 @@ func (u *Unit) call(fr *Frame, st *State, c *ssa.CallCommon, instr ssa.Value, po
 		if con := u.eng.externs[name]; con != nil {
 			return u.applyContract(fr, st, con, nil, append([]Val{recv}, args...), pos, name)
 		}
+		// methods of anonymous interface types cannot be named; `extern method:<name>`
+		// is an assumption about every implementation reachable at such a call
+		if con := u.eng.externs["method:"+c.Method.Name()]; con != nil && !strings.Contains(name, ".") || (con != nil && strings.HasPrefix(name, "interface{")) {
+			return u.applyContract(fr, st, con, nil, append([]Val{recv}, args...), pos, "method:"+c.Method.Name())
+		}
 		return u.havocCall(st, c, "interface call "+name)
 	}
 	// a call through a function value held in a named variable (a captured variable
@@ -843,6 +848,11 @@ func (u *Unit) callMods(fr *Frame, li *loopInfo, c *ssa.CallCommon, depth int, s
 			markAllocArgs()
 			return
 		}
+		if con := u.eng.externs["method:"+c.Method.Name()]; con != nil && strings.HasPrefix(name, "interface{") {
+			u.contractMods(li, con)
+			markAllocArgs()
+			return
+		}
 		li.modAll = true
 		markAllocArgs()
 		return
@@ -1054,7 +1064,7 @@ func (u *Unit) autoRangeInv(fr *Frame, li *loopInfo, st *State) *Term {
 // loopFrameKeys: heap keys written by the loop for which the top-level
 // function's frame condition is maintained as an invariant.
 func (u *Unit) loopFrameKeys(fr *Frame, li *loopInfo) []string {
-	if !fr.top || li.modAll || u.con == nil || !u.frame().active || u.frame().everything {
+	if !fr.top || li.modAll || u.con == nil || !u.frame().active || u.frame().everything || u.con.frameAssumed != "" {
 		return nil
 	}
 	var ks []string
